@@ -326,6 +326,42 @@ fn solve_event(id: usize, sub: usize, solver: &mut DefaultSolver<f64>, rhsx: &[f
            "x_finite": x.iter().all(|t| t.is_finite()), "dim": dim, "p": v.p, "normb": fj(normb)})
 }
 
+/// The factorisation is that of the regularised matrix K + eps * diag(recorded signs): with refinement switched off for
+/// this one call the direct solve returns x0 = (K + eps S)^-1 b, so the residual against the unregularised copy must be
+/// b - K x0 = eps * S x0, component by component.
+fn reg_event(id: usize, solver: &mut DefaultSolver<f64>, rhsx: &[f64], rhsz: &[f64]) -> Option<Value> {
+    let mut st = solver.settings.clone();
+    // (only where the shift is large enough to stand out from the rounding of a factorisation whose (1,1) pivots may be
+    //  as small as the shift itself: element growth ~ 1/eps)
+    if !st.static_regularization_enable || st.static_regularization_constant < 1e-4 { return None; }
+    st.iterative_refinement_enable = false;
+    let (ok, x, b) = solver.kktsystem.verif_solve(rhsx, rhsz, &st);
+    let v = solver.kktsystem.verif_kkt_view().expect("direct solver");
+    let dim = v.dim;
+    if !ok || x.len() != dim || !x.iter().all(|t| t.is_finite()) { return None; }
+    let eps = v.diagonal_regularizer;
+    let mut kx = vec![0.0f64; dim];
+    let mut ax = vec![0.0f64; dim];
+    for j in 0..dim { for kk in v.colptr[j]..v.colptr[j + 1] {
+        let (i, val) = (v.rowval[kk], v.nzval[kk]);
+        kx[i] += val * x[j]; ax[i] += (val * x[j]).abs();
+        if i != j { kx[j] += val * x[i]; ax[j] += (val * x[i]).abs(); }
+    } }
+    let xmax = x.iter().fold(0.0f64, |a, t| a.max(t.abs()));
+    let mut rows = vec![];
+    for i in 0..dim {
+        let r = b[i] - kx[i];
+        let want = eps * (v.dsigns[i] as f64) * x[i];
+        // rounding of the factorisation / substitutions (backward error relative to the largest entries) and of the observer
+        let tol = 1e-3 * eps * x[i].abs() + 64.0 * (dim as f64) * f64::EPSILON * (ax[i] + b[i].abs() + xmax) * (1.0f64).max(1.0 / eps) + 1e-300;
+        rows.push(json!([fj(r), fj(want - tol), fj(want + tol)]));
+    }
+    if std::env::var("VH_DEBUG_REG").is_ok() {
+        eprintln!("x = {:?}\nb = {:?}\nr = {:?}\ndsigns = {:?}\nK = {:?} {:?} {:?}", x, b, (0..dim).map(|i| b[i] - kx[i]).collect::<Vec<_>>(), v.dsigns, v.colptr, v.rowval, v.nzval);
+    }
+    Some(json!({"ev": "KKTReg", "id": id, "eps": fj(eps), "rows": rows, "dim": dim}))
+}
+
 /// KKT solves on real solver states: refinement settings lattice x right-hand sides of several magnitudes
 pub fn record_solves(seed: u64, count: usize) -> (Vec<Value>, Vec<Value>) {
     let mut rng = StdRng::seed_from_u64(seed ^ 0x50f7);
@@ -372,6 +408,7 @@ pub fn solve_events_of(id: usize, p: &Problem, rseed: u64) -> Vec<Value> {
             let rx: Vec<f64> = (0..n).map(|_| (rng.gen::<f64>() - 0.5) * mag).collect();
             let rz: Vec<f64> = (0..m).map(|_| (rng.gen::<f64>() - 0.5) * mag).collect();
             out.push(solve_event(id, sub, &mut solver, &rx, &rz));
+            if sub == 0 && solver.solution.iterations <= 5 { if let Some(e) = reg_event(id, &mut solver, &rx, &rz) { out.push(e); } }
         }
         out
     }));
